@@ -253,103 +253,425 @@ def check_sentence_lines(ctx: Ctx) -> None:
 
 # ------------------------------------------------------------------------------------- L5 L6 L7
 def check_placeholders(ctx: Ctx) -> None:
-    repo, prog = ctx.repo, ctx.prog
-    sp = repo.cls(f"{TW}:_HtmlMdWordSplitter") if f"{TW}:_HtmlMdWordSplitter" in repo.classes else None
-    if sp is None:
-        raise AnalysisError("anchor vanished: the HTML/Markdown word splitter class")
-    call = sp.methods.get("__call__")
-    if call is None:
-        raise AnalysisError("word splitter has no __call__")
-    flow = prog.flow(call)
-    ext = repo.func(f"{TW}:_extract_atomic_constructs")
-    res = repo.func(f"{TW}:_restore_atomic_constructs")
-    if not any(prog.resolve_call(call, c) == [res] for _n, c in flow.all_calls()):
-        raise AnalysisError(f"{res.name} is not called from the word splitter: the restore step cannot be located")
-    for r in flow.cfg.returns():
-        org = deep_origins(prog, call, r.ast.value, r, stop={res.qual})
-        ok = org == frozenset({("call", res.qual)})
-        ctx.ob("R-LOSSLESS-L5", f"{call.qual} :: {norm(r.ast)[:60]}", ok,
-               "every return of the splitter must hand out tokens that went through _restore_atomic_constructs (no placeholder may survive)",
-               where(call, r))
-    # restore receives the tokens of the extracted text and the very map extract produced
-    for n, c in flow.all_calls():
-        if prog.resolve_call(call, c) == [res]:
-            b = bind_call(res, c)
-            m_org = origins(prog, call, b.get(_map_param(res)), n)
-            ctx.ob("R-LOSSLESS-L5", f"{call.qual} :: restore uses the map produced by extract",
-                   m_org == frozenset({("unpack", ("call", ext.qual), 0)}),
-                   "the placeholder map handed to restore must be the one extract just built", where(call, c))
-    # the placeholder is built the same way on both sides: what the extraction callback returns and what restore searches
-    # for are compared as string templates (constants folded, the index a hole), through helpers and temporaries
+    """L5: atomic constructs leave the text as NUL-delimited placeholders and all come back.
+
+    The rule is stated on the *sites*, wherever they live (two private helpers, as today, or written out in the splitter):
+    the one substitution over ATOMIC_CONSTRUCT_PATTERN (site E, with its callback and the container it stores matches in)
+    and the `.replace(placeholder, construct)` loop (site R). Between them: the same placeholder spelling, the same
+    container, every token handed out has been through the replace loop."""
+    from .. import anchors
     from .callback import callback_of, group_index
 
-    ext_cbs = []
-    for n_, c_ in prog.flow(ext).all_calls():
-        if isinstance(c_.func, ast.Attribute) and c_.func.attr == "sub":
-            cb_ = callback_of(prog, ext, c_)
-            if cb_ is not None:
-                ext_cbs.append(cb_)
-    if not ext_cbs:
-        raise AnalysisError("replacement callback of the atomic-construct extraction not found")
+    repo, prog = ctx.repo, ctx.prog
+    call = anchors.splitter_call(ctx)
+    region = [call] + [f for f in anchors._callees(ctx, call, 2) if f.module.name != TH]
+
+    def is_combined(e: ast.AST, f: FuncInfo) -> bool:
+        r = repo.resolve_expr(e, f.module, f) if isinstance(e, (ast.Name, ast.Attribute)) else None
+        return isinstance(r, ConstInfo) and r.name == "ATOMIC_CONSTRUCT_PATTERN"
+
+    # ---- site E: substitutions with a callback, in the splitter and its private helpers
+    sub_sites: list[tuple[FuncInfo, Node, ast.Call]] = []
+    for f in region:
+        for n, c in prog.flow(f).all_calls():
+            if isinstance(c.func, ast.Attribute) and c.func.attr in ("sub", "subn") and callback_of(prog, f, c) is not None:
+                sub_sites.append((f, n, c))
+
+    def combined_site(f: FuncInfo, c: ast.Call) -> bool:
+        recv = c.func.value
+        if is_combined(recv, f):
+            return True
+        if isinstance(recv, ast.Name) and recv.id in f.params:
+            # the pattern is a parameter: every caller of the helper must hand in the combined pattern
+            sites = [(g, cc) for g in repo.functions.values() if not isinstance(g.node, ast.Lambda)
+                     for cc in walk_no_nested(g.node) if isinstance(cc, ast.Call) and prog.resolve_call(g, cc) == [f]]
+            return bool(sites) and all(bind_call(f, cc).get(recv.id) is not None and is_combined(bind_call(f, cc)[recv.id], g) for g, cc in sites)
+        return False
+
+    if not sub_sites:
+        raise AnalysisError("the atomic-construct extraction (a .sub with a replacement callback in the word splitter or its helpers) was not found")
+    ext, e_node, e_call = sub_sites[0]
+    ok = len(sub_sites) == 1 and combined_site(ext, e_call)
+    ctx.ob("R-LOSSLESS-L5", f"{ext.qual} :: one pass over ATOMIC_CONSTRUCT_PATTERN", ok,
+           "constructs are extracted by a single sub() over the combined pattern (nested re-extraction would corrupt placeholders)", where(ext, e_call))
+    cb = callback_of(prog, ext, e_call)
+    cbf = cb.func
+    # the callback stores the whole match, in a container it shares with the restore step
+    cflow = prog.flow(cbf)
+    container: str | None = None  # the container, as the function holding site E names it
+    stores = False
+
+    def as_seen_by_ext(target: ast.AST) -> str | None:
+        k = chain_key(target) if isinstance(target, (ast.Name, ast.Attribute)) else None
+        if k is None:
+            return None
+        if cb.how == "function" and isinstance(target, ast.Name):
+            return k  # closure variable shared with the enclosing function
+        if cb.how == "instance" and cbf.params and k.startswith(cbf.params[0] + "."):
+            arg = e_call.args[1] if prog.resolve_call(ext, e_call) in ("re.sub", "re.subn") and len(e_call.args) > 1 else (e_call.args[0] if e_call.args else None)
+            if isinstance(arg, ast.Name):
+                return arg.id + k[len(cbf.params[0]):]
+        return None
+
+    for n_ in cflow.cfg.nodes:
+        if n_.kind == "stmt" and isinstance(n_.ast, ast.Assign) and isinstance(n_.ast.targets[0], ast.Subscript):
+            if group_index(prog, cbf, n_.ast.value, n_, cb.mparam) == 0:
+                stores, container = True, as_seen_by_ext(n_.ast.targets[0].value)
+        for c_ in cflow.calls_in(n_):
+            if isinstance(c_.func, ast.Attribute) and c_.func.attr == "append" and len(c_.args) == 1 \
+                    and group_index(prog, cbf, c_.args[0], n_, cb.mparam) == 0:
+                stores, container = True, as_seen_by_ext(c_.func.value)
+    ctx.ob("R-LOSSLESS-L5", f"{cbf.qual} :: stores the whole match", stores, "the map must hold match.group(0) (the construct verbatim)", where(cbf, cbf.node))
     ext_t: set = set()
-    for cb_ in ext_cbs:
-        for r in prog.flow(cb_.func).cfg.returns():
-            ext_t.add(str_template(prog, cb_.func, r.ast.value, r))
+    for r in cflow.cfg.returns():
+        ext_t.add(str_template(prog, cbf, r.ast.value, r))
     # NUL-delimited: read off the template the extraction side builds (prefix, index, suffix)
     pre = suf = None
     if len(ext_t) == 1:
         t0 = next(iter(ext_t))
         if t0 is not None and len(t0) == 3 and t0[0][0] == "c" and t0[1] == ("h",) and t0[2][0] == "c":
             pre, suf = t0[0][1], t0[2][1]
-    ctx.ob("R-LOSSLESS-L5", f"{TW}:_PLACEHOLDER_PREFIX/_SUFFIX", isinstance(pre, str) and isinstance(suf, str) and pre.startswith("\x00") and suf == "\x00",
+    ctx.ob("R-LOSSLESS-L5", f"{TW} :: placeholder delimiters", isinstance(pre, str) and isinstance(suf, str) and pre.startswith("\x00") and suf == "\x00",
            f"placeholders must be delimited by NUL bytes (cannot be produced by whitespace splitting or occur in text): {pre!r} ... {suf!r}",
            "text_wrapping.py")
-    res_t: set = set()
-    seen_f: set[str] = set()
-    work = [res]
-    while work:
-        f = work.pop()
-        if f.qual in seen_f or len(seen_f) > 6:
+
+    # ---- site R: the replace calls that put constructs back
+    rep_sites: list[tuple[FuncInfo, Node, ast.Call, object]] = []
+    for f in region:
+        if f is cbf:
             continue
-        seen_f.add(f.qual)
-        fl = prog.flow(f)
-        for n, c in fl.all_calls():
-            if isinstance(c.func, ast.Attribute) and c.func.attr == "replace" and len(c.args) == 2:
-                res_t.add(str_template(prog, f, c.args[0], n))
-            t = prog.resolve_call(f, c)
-            if isinstance(t, list) and len(t) == 1:
-                work.append(t[0])
+        for n, c in prog.flow(f).all_calls():
+            if isinstance(c.func, ast.Attribute) and c.func.attr == "replace" and len(c.args) == 2 and not c.keywords:
+                rep_sites.append((f, n, c, _replace_template(prog, f, c.args[0], n)))
+    if not rep_sites:
+        raise AnalysisError("the restore step (str.replace of placeholders in the word splitter or its helpers) cannot be located")
+    res_t = {t for _f, _n, _c, t in rep_sites}
     want_t = (("c", pre), ("h",), ("c", suf)) if isinstance(pre, str) and isinstance(suf, str) else None
     ctx.ob("R-LOSSLESS-L5", f"{TW} :: extract and restore spell placeholders alike",
            bool(ext_t) and ext_t == res_t and None not in ext_t and (want_t is None or ext_t == {want_t}),
            f"both sides must build the placeholder as prefix+index+suffix: extract returns {sorted(map(str, ext_t))}, restore replaces {sorted(map(str, res_t))}",
            "text_wrapping.py")
-    # a single extraction pass over the combined pattern
-    eflow = prog.flow(ext)
-    subs = [(n, c) for n, c in eflow.all_calls() if isinstance(c.func, ast.Attribute) and c.func.attr == "sub"]
-    def is_combined(e: ast.AST, f: FuncInfo) -> bool:
-        r = repo.resolve_expr(e, f.module, f) if isinstance(e, (ast.Name, ast.Attribute)) else None
-        return isinstance(r, ConstInfo) and r.name == "ATOMIC_CONSTRUCT_PATTERN"
+    res_funcs = list({f.qual: f for f, _n, _c, _t in rep_sites}.values())
+    if len(res_funcs) != 1:
+        raise AnalysisError("placeholders are replaced in several functions: the restore step cannot be located")
+    res = res_funcs[0]  # the function that holds the replace loop
+    # the call chain splitter -> ... -> res (res may be the splitter itself, a helper, or a helper of a helper)
+    chain = _call_chain(ctx, call, res)
+    if chain is None:
+        raise AnalysisError(f"{res.qual} holds the placeholder replacement but is not called from the word splitter")
 
-    ok = len(subs) == 1 and is_combined(subs[0][1].func.value, ext)
-    if len(subs) == 1 and not ok and isinstance(subs[0][1].func.value, ast.Name) and subs[0][1].func.value.id in ext.params:
-        # the pattern is a parameter: every caller of the extraction must hand in the combined pattern
-        pname = subs[0][1].func.value.id
-        sites = [(f, c) for f in repo.functions.values() if not isinstance(f.node, ast.Lambda)
-                 for c in walk_no_nested(f.node) if isinstance(c, ast.Call) and prog.resolve_call(f, c) == [ext]]
-        ok = bool(sites) and all(bind_call(ext, c).get(pname) is not None and is_combined(bind_call(ext, c)[pname], f) for f, c in sites)
-    ctx.ob("R-LOSSLESS-L5", f"{ext.qual} :: one pass over ATOMIC_CONSTRUCT_PATTERN", ok,
-           "constructs are extracted by a single sub() over the combined pattern (nested re-extraction would corrupt placeholders)", where(ext, ext.node))
-    # the callback stores the whole match
-    for cb_ in ext_cbs:
-        cbf = cb_.func
-        cflow = prog.flow(cbf)
-        ok = False
-        for n_ in cflow.cfg.nodes:
-            if n_.kind == "stmt" and isinstance(n_.ast, ast.Assign) and isinstance(n_.ast.targets[0], ast.Subscript):
-                if group_index(prog, cbf, n_.ast.value, n_, cb_.mparam) == 0:
-                    ok = True
-        ctx.ob("R-LOSSLESS-L5", f"{cbf.qual} :: stores the whole match", ok, "the map must hold match.group(0) (the construct verbatim)", where(cbf, cbf.node))
+    # ---- from E to R inside the splitter
+    flow = prog.flow(call)
+    for caller, callee in zip(chain, chain[1:]):
+        cflow_ = prog.flow(caller)
+        for r in cflow_.cfg.returns():
+            if r.ast.value is None:
+                continue
+            ok = deep_origins(prog, caller, r.ast.value, r, stop={callee.qual}) == frozenset({("call", callee.qual)}) or _maps_callee(prog, caller, r.ast.value, callee)
+            if caller is not call and not ok:
+                # a helper may also hand its input back when nothing was extracted - the path rule below looks at those returns
+                continue
+            ctx.ob("R-LOSSLESS-L5", f"{caller.qual} :: {norm(r.ast)[:60]}", ok,
+                   "every return of the splitter must hand out tokens that went through the restore step (no placeholder may survive)",
+                   where(caller, r))
+    # the container the replace loop walks is the one the extraction filled
+    rflow = prog.flow(res)
+    loops = []
+    for _f, n, _c, _t in rep_sites:
+        hs = [h for h in rflow.cfg.nodes if h.kind == "for" and n in rflow.loop_body_nodes(h)]
+        if hs:
+            loops.append(min(hs, key=lambda h: len(rflow.loop_body_nodes(h))))
+    loops = list(dict.fromkeys(loops))
+    for h in loops:
+        # follow the container up the call chain into the splitter
+        cur_f, cur_e, cur_n = res, _container_root(prog, res, h.ast.iter, h), h
+        what, where_c, lost = norm(cur_e), (res, h), False
+        for caller, callee in reversed(list(zip(chain, chain[1:]))):
+            cfl = prog.flow(callee)
+            if not (isinstance(cur_e, ast.Name) and cur_e.id in callee.params and all(d.kind == "param" for d in cfl.reaching(cur_n, cur_e.id))):
+                lost = True
+                break
+            sites = [(n, c) for n, c in _calls_incl_comprehensions(prog, caller) if prog.resolve_call(caller, c) == [callee]]
+            if len(sites) != 1:
+                lost = True
+                break
+            n, c = sites[0]
+            arg = bind_call(callee, c).get(cur_e.id)
+            if arg is None:
+                lost = True
+                break
+            cur_f, cur_e, cur_n = caller, _container_root(prog, caller, arg, n), n
+            what, where_c = norm(arg), (caller, c)
+        ok = (not lost) and _is_extracted_container(ctx, call, cur_e, cur_n, ext, e_call, container)
+        ctx.ob("R-LOSSLESS-L5", f"{call.qual} :: restore uses the map produced by extract", ok,
+               f"the placeholder map handed to restore must be the one extract just built (it is `{what}`)", where(where_c[0], where_c[1]))
+    # ---- inside R: every token handed out went through the replace loop
+    _restore_discipline(ctx, res, rflow, rep_sites, loops, pre, suf)
+
+
+def _calls_incl_comprehensions(prog, fi: FuncInfo) -> list[tuple[Node, ast.Call]]:
+    return list(prog.flow(fi).all_calls())
+
+
+def _call_chain(ctx: Ctx, top: FuncInfo, target: FuncInfo, depth: int = 3) -> list[FuncInfo] | None:
+    """[top, ..., target]: a chain of direct calls (shortest)."""
+    if top is target:
+        return [top]
+    prog = ctx.prog
+    frontier = [[top]]
+    seen = {top.qual}
+    for _ in range(depth):
+        nxt = []
+        for path in frontier:
+            f = path[-1]
+            for c in walk_no_nested(f.node):
+                if isinstance(c, ast.Call):
+                    t = prog.resolve_call(f, c)
+                    if isinstance(t, list) and len(t) == 1 and t[0].qual not in seen and not isinstance(t[0].node, ast.Lambda):
+                        if t[0] is target:
+                            return path + [target]
+                        seen.add(t[0].qual)
+                        nxt.append(path + [t[0]])
+        frontier = nxt
+    return None
+
+
+def _maps_callee(prog, fi: FuncInfo, v: ast.AST, callee: FuncInfo) -> bool:
+    """`[callee(t, ...) for t in xs]` / `list(callee(t, ...) for t in xs)`: every element went through callee."""
+    if isinstance(v, ast.Call) and isinstance(v.func, ast.Name) and v.func.id in ("list", "tuple") and len(v.args) == 1:
+        v = v.args[0]
+    if isinstance(v, (ast.ListComp, ast.GeneratorExp)) and len(v.generators) == 1 and not v.generators[0].ifs and isinstance(v.elt, ast.Call):
+        return prog.resolve_call(fi, v.elt) == [callee]
+    return False
+
+
+def _is_extracted_container(ctx: Ctx, call: FuncInfo, expr: ast.AST | None, node: Node, ext: FuncInfo, e_call: ast.Call, container: str | None) -> bool:
+    """Is `expr` (in the splitter) the container the extraction callback stored the matches in?"""
+    prog = ctx.prog
+    if expr is None:
+        return False
+    if ext is call:
+        # the callback is a closure of the splitter (or an object it made): same local, bound once
+        k = chain_key(expr) if isinstance(expr, (ast.Name, ast.Attribute)) else None
+        if container is not None and k == container:
+            defs = prog.flow(call).reaching(node, container.split(".")[0])
+            return len(defs) == 1 and defs[0].kind == "assign"
+        return False
+    # the extraction helper returns the container (alone, or in a tuple next to the substituted text): the argument must be
+    # exactly that element of its result
+    eflow = prog.flow(ext)
+
+    def is_text(e: ast.AST, r: Node) -> bool:
+        if e is e_call:
+            return True
+        if isinstance(e, ast.Name):
+            defs = eflow.reaching(r, e.id)
+            return len(defs) == 1 and defs[0].value is e_call
+        return False
+
+    idx: set = set()
+    for r in eflow.cfg.returns():
+        v = r.ast.value
+        if isinstance(v, ast.Tuple):
+            if container is not None:
+                hit = [i for i, e in enumerate(v.elts) if isinstance(e, (ast.Name, ast.Attribute)) and chain_key(e) == container]
+            else:
+                hit = [i for i, e in enumerate(v.elts) if not is_text(e, r)] if len(v.elts) == 2 else []
+            idx.add(hit[0] if len(hit) == 1 else None)
+        elif container is not None and isinstance(v, (ast.Name, ast.Attribute)) and chain_key(v) == container:
+            idx.add("whole")
+        else:
+            idx.add(None)
+    if len(idx) != 1 or None in idx:
+        return False
+    k = next(iter(idx))
+    org = origins(prog, call, expr, node)
+    return org == (frozenset({("call", ext.qual)}) if k == "whole" else frozenset({("unpack", ("call", ext.qual), k)}))
+
+
+def _bound_once(prog, fi: FuncInfo, name: ast.Name, node: Node) -> ast.AST | None:
+    """The defining expression of a local bound by exactly one plain assignment that reaches `node` (comprehensions too)."""
+    defs = prog.flow(fi).reaching(node, name.id)
+    if len(defs) == 1 and defs[0].kind == "assign" and defs[0].value is not None and not defs[0].weak:
+        return defs[0].value
+    return None
+
+
+def _container_root(prog, fi: FuncInfo, expr: ast.AST, node: Node, depth: int = 0) -> ast.AST:
+    """The container an iterable walks: through .items() / enumerate() / sorted() / list() and through a comprehension
+    that only re-packages the entries (`[(placeholder(i), c) for i, c in m.items()]`)."""
+    e = expr
+    for _ in range(8):
+        if isinstance(e, ast.Call) and isinstance(e.func, ast.Attribute) and e.func.attr in ("items", "values", "keys", "copy") and not e.args:
+            e = e.func.value
+        elif isinstance(e, ast.Call) and isinstance(e.func, ast.Name) and e.func.id in ("enumerate", "sorted", "list", "tuple", "reversed", "iter") and e.args:
+            e = e.args[0]
+        elif isinstance(e, (ast.ListComp, ast.GeneratorExp, ast.SetComp, ast.DictComp)) and len(e.generators) == 1 and not e.generators[0].ifs:
+            e = e.generators[0].iter
+        elif isinstance(e, ast.Name):
+            v = _bound_once(prog, fi, e, node)
+            # a name that merely re-packages another container is looked through; the container itself (born as a literal) is the root
+            if isinstance(v, (ast.ListComp, ast.GeneratorExp, ast.SetComp, ast.DictComp)) or (isinstance(v, ast.Call) and (
+                    (isinstance(v.func, ast.Attribute) and v.func.attr in ("items", "values", "keys", "copy"))
+                    or (isinstance(v.func, ast.Name) and v.func.id in ("enumerate", "sorted", "list", "tuple", "reversed") and v.args))):
+                e = v
+            else:
+                break
+        else:
+            break
+    return e
+
+
+def _replace_template(prog, fi: FuncInfo, a: ast.AST, node: Node):
+    """Template of the string a `.replace(a, b)` searches for - also when the placeholders were built beforehand and `a` is
+    the first half of a pair the loop unpacks (`for placeholder, construct in [(f"..{i}..", c) for i, c in m.items()]`)."""
+    t = str_template(prog, fi, a, node)
+    if t is not None or not isinstance(a, ast.Name):
+        return t
+    flow = prog.flow(fi)
+    defs = flow.reaching(node, a.id)
+    if len(defs) == 1 and defs[0].kind == "for" and defs[0].node.kind == "for" and defs[0].index is not None:
+        it = defs[0].node.ast.iter
+        if isinstance(it, ast.Name):
+            it = _bound_once(prog, fi, it, defs[0].node) or it
+        if isinstance(it, ast.Call) and isinstance(it.func, ast.Attribute) and it.func.attr == "items" and not it.args:
+            inner = it.func.value
+            if isinstance(inner, ast.Name):
+                inner = _bound_once(prog, fi, inner, defs[0].node) or inner
+            if isinstance(inner, ast.DictComp) and defs[0].index < 2:
+                return str_template(prog, fi, (inner.key, inner.value)[defs[0].index], defs[0].node)
+        if isinstance(it, (ast.ListComp, ast.GeneratorExp)) and isinstance(it.elt, ast.Tuple) and defs[0].index < len(it.elt.elts):
+            return str_template(prog, fi, it.elt.elts[defs[0].index], defs[0].node)
+    return None
+
+
+def _restore_discipline(ctx: Ctx, res: FuncInfo, rflow, rep_sites, loops: list[Node], pre, suf) -> None:
+    """Inside the function that restores: a token variable is rewritten by `x = x.replace(placeholder, construct)` in a loop
+    over the container; every use of x that hands it out (append / yield / return) lies behind that loop on every path from
+    where x got its token - except paths on which there is provably nothing to restore (the container is empty, or the
+    token does not contain the placeholder prefix)."""
+    prog = ctx.prog
+    tokvars = set()
+    for _f, n, c, _t in rep_sites:
+        if n.kind == "stmt" and isinstance(n.ast, ast.Assign) and len(n.ast.targets) == 1 and isinstance(n.ast.targets[0], ast.Name) \
+                and isinstance(c.func.value, ast.Name) and c.func.value.id == n.ast.targets[0].id and n.ast.value is c:
+            tokvars.add(n.ast.targets[0].id)
+    if len(tokvars) != 1 or not loops:
+        ctx.note("restore_discipline", "replace is not of the form `x = x.replace(...)` inside a loop: the path rule does not apply")
+        return
+    x = next(iter(tokvars))
+    rep_nodes = {n for _f, n, _c, _t in rep_sites}
+    loop_set = set(loops)
+    roots = {norm(_container_root(prog, res, h.ast.iter, h)) for h in loops}
+
+    def nothing_to_restore(test: ast.AST, truth: bool) -> bool:
+        while isinstance(test, ast.UnaryOp) and isinstance(test.op, ast.Not):
+            test, truth = test.operand, not truth
+        if isinstance(test, ast.Compare) and len(test.ops) == 1:
+            op, l, r = test.ops[0], test.left, test.comparators[0]
+            if isinstance(op, (ast.In, ast.NotIn)) and isinstance(r, ast.Name) and r.id == x:
+                k = str_template(prog, res, l, rflow.cfg.entry)
+                absent = truth if isinstance(op, ast.NotIn) else not truth
+                if absent and k is not None and len(k) == 1 and k[0][0] == "c" and k[0][1] and isinstance(pre, str) and isinstance(suf, str) \
+                        and (k[0][1] in pre or k[0][1] in suf):
+                    return True
+            if isinstance(l, ast.Call) and isinstance(l.func, ast.Name) and l.func.id == "len" and l.args and isinstance(r, ast.Constant) and r.value == 0 \
+                    and norm(_container_root(prog, res, l.args[0], rflow.cfg.entry)) in roots:
+                return truth if isinstance(op, ast.Eq) else (not truth if isinstance(op, (ast.NotEq, ast.Gt)) else False)
+            return False
+        if isinstance(test, (ast.Name, ast.Attribute)) and norm(_container_root(prog, res, test, rflow.cfg.entry)) in roots:
+            return not truth
+        return False
+
+    def escapes(src: Node, dst: Node) -> list[Node] | None:
+        """a path src -> dst that enters no replace loop and crosses no nothing-to-restore edge"""
+        prev: dict[Node, Node | None] = {src: None}
+        queue = [src]
+        while queue:
+            n = queue.pop(0)
+            if n is dst and n is not src:
+                path, cur = [], n
+                while cur is not None:
+                    path.append(cur)
+                    cur = prev[cur]
+                return path[::-1]
+            for s_, lab in n.succ:
+                if s_ in prev or (s_ in loop_set and s_ is not dst):
+                    continue
+                if n.kind == "test" and lab in ("T", "F") and isinstance(n.ast, ast.expr) and nothing_to_restore(n.ast, lab == "T"):
+                    continue
+                prev[s_] = n
+                queue.append(s_)
+        return None
+
+    n_out = 0
+    handled: set[Node] = set()
+    accumulators: set[str] = set()
+    for n in rflow.cfg.nodes:
+        if n in rep_nodes or n in loop_set:
+            continue
+        outs: list[ast.AST] = []
+        for c in rflow.calls_in(n):
+            if isinstance(c.func, ast.Attribute) and c.func.attr in ("append", "add", "extend", "insert") and any(
+                    isinstance(a, ast.Name) and a.id == x for a in ast.walk(ast.Tuple(elts=list(c.args), ctx=ast.Load()))):
+                outs.append(c)
+                if isinstance(c.func.value, ast.Name):
+                    accumulators.add(c.func.value.id)
+        for ex in rflow.node_exprs(n):
+            for y in walk_no_nested(ex):
+                if isinstance(y, (ast.Yield,)) and y.value is not None and any(isinstance(a, ast.Name) and a.id == x for a in ast.walk(y.value)):
+                    outs.append(y)
+        if n.kind == "stmt" and isinstance(n.ast, ast.Return) and n.ast.value is not None \
+                and any(isinstance(a, ast.Name) and a.id == x for a in ast.walk(n.ast.value)):
+            outs.append(n.ast)
+            handled.add(n)
+        for o in outs:
+            n_out += 1
+            bad = None
+            for d in rflow.reaching(n, x):
+                if d.node in rep_nodes:
+                    continue
+                path = escapes(d.node, n)
+                if path is not None:
+                    bad = path
+            ctx.ob("R-LOSSLESS-L5", f"{res.qual} :: {norm(o)[:50]} hands out a restored token", bad is None,
+                   f"`{x}` may reach this point without having been through the placeholder-replacing loop (a placeholder would survive in the output)",
+                   where(res, o), [f"{p.lineno}: {p.text()}" for p in (bad or [])])
+    # returns that hand the incoming tokens back some other way are legitimate only when there was nothing to restore
+    sources = {x} & set(res.params)
+    for d in [d for n in rflow.cfg.nodes for d in rflow.reaching(n, x)]:
+        if d.kind == "for" and d.node.kind == "for":
+            root = _container_root(prog, res, d.node.ast.iter, d.node)
+            if isinstance(root, ast.Name):
+                sources.add(root.id)
+
+    def unrestored(expr: ast.AST, node: Node, depth: int = 0) -> list[tuple[Node, ast.AST]]:
+        """places where a value built from the incoming tokens - not the restored ones - enters what is returned"""
+        if isinstance(expr, ast.Name):
+            if expr.id in accumulators or expr.id == x:
+                return []
+            if expr.id in sources:
+                return [(node, expr)]
+            defs = rflow.reaching(node, expr.id)
+            if defs and all(d.kind == "assign" and d.value is not None for d in defs) and depth < 4:
+                out: list[tuple[Node, ast.AST]] = []
+                for d in defs:
+                    out += unrestored(d.value, d.node, depth + 1)
+                return out
+        sl = prog.slice(res, expr, node)
+        if (sl.params() & sources) or any(d.var in sources for d in sl.defs):
+            return [(node, expr)]
+        return []
+
+    for r in rflow.cfg.returns():
+        v = r.ast.value
+        if v is None or r in handled:
+            continue
+        for at, e in unrestored(v, r):
+            guarded = any(n.kind == "test" and isinstance(n.ast, ast.expr) and nothing_to_restore(n.ast, lab == "T") for n, lab in rflow.control_deps(at))
+            ctx.ob("R-LOSSLESS-L5", f"{res.qual} :: `{norm(e)[:40]}` is handed back only when nothing was extracted", guarded,
+                   "tokens that did not go through the placeholder-replacing loop may be returned only under `the container is empty`", where(res, at))
+    ctx.require("R-LOSSLESS-L5", f"token hand-out sites in {res.qual}", n_out, 1)
 
 
 def _map_param(res: FuncInfo) -> str:
@@ -489,8 +811,10 @@ def check_adjacency(ctx: Ctx) -> None:
     # both directions use the same delimiter table
     folder = Folder(repo)
     try:
-        a = folder.const(f"{TH}:_adjacent_tags_re")
-        d = folder.const(f"{TH}:_denormalize_tags_re")
+        from .. import anchors
+
+        a = folder.const(anchors.sub_pattern_of(ctx, nor.qual))
+        d = folder.const(anchors.sub_pattern_of(ctx, den.qual))
     except Unknown as e:
         raise AnalysisError(str(e)) from e
     ctx.ob("R-LOSSLESS-L7", f"{TH}:_adjacent_tags_re vs _denormalize_tags_re", a.pattern.replace(")(", ") (") == d.pattern,
@@ -501,8 +825,9 @@ def check_adjacency(ctx: Ctx) -> None:
 def check_indents(ctx: Ctx) -> None:
     repo, prog = ctx.repo, ctx.prog
     decos = []
-    for q in (f"{LW}:_add_markdown_hard_break_handling", f"{TH}:add_tag_newline_handling"):
-        f = repo.func(q)
+    from .. import anchors
+
+    for f in (anchors.hard_break_factory(ctx), repo.func(f"{TH}:add_tag_newline_handling")):
         decos.append((f, factory_closure(prog, f)))
     ctx.require("R-LOSSLESS-L8", "line wrapper decorators", len(decos), 1)
     for fac, w in decos:
